@@ -5,12 +5,14 @@ From QV Require Import Conv Facts.
 Import ListNotations.
 
 (* one conversion the implementation performed: source type, target type, source value, whether
-   the generator built the pair as compatible, and the deep structure found in the target
+   the harness judged the pair compatible, whether it judged that kinds of different classes are
+   reached, and the deep structure found in the target
    afterwards (None: ConvertFrom returned an error) *)
-Record ccase := { c_from : gotype; c_to : gotype; c_val : val; c_compat : bool; c_res : option val }.
+Record ccase := { c_from : gotype; c_to : gotype; c_val : val; c_compat : bool; c_other : bool; c_res : option val }.
 
 (* equality of observed trees; maps are compared as finite maps (the harness lists entries sorted
-   by key, the model in insertion order) *)
+   by key, the model in insertion order); the sign of a zero float key is not compared: Go keeps
+   one entry for +0 and -0 and which sign survives depends on its iteration order *)
 Fixpoint val_equiv (a b : val) {struct a} : bool :=
   match a, b with
   | VSlice x, VSlice y => list_eqb val_equiv x y
@@ -19,12 +21,13 @@ Fixpoint val_equiv (a b : val) {struct a} : bool :=
       Nat.eqb (List.length x) (List.length y) &&
       forallb (fun kv : val * val =>
                  let (k, e) := kv in
-                 existsb (fun kv' : val * val => val_equiv k (fst kv') && val_equiv e (snd kv')) y) x
+                 existsb (fun kv' : val * val => (key_eqb k (fst kv') || val_equiv k (fst kv')) && val_equiv e (snd kv')) y) x
   | _, _ => val_eqb a b
   end.
 
 Definition case_ok (c : cfg) (x : ccase) : bool :=
   Bool.eqb (compatb (c_from x) (c_to x)) (c_compat x) &&
+  Bool.eqb (other_kind_reached (c_to x) (c_from x) (c_val x)) (c_other x) &&
   has_typeb (c_from x) (c_val x) &&
   match convert c (c_from x) (c_to x) (c_val x), c_res x with
   | COk v', Some o => val_equiv v' o
